@@ -64,7 +64,7 @@ def ident(v):
 def prog_snap(program):
     if program is None:
         return None
-    return (program.working_dir, tuple((n, id(c), bool(c.is_finished), len(c.arguments)) for n, c in program.commands.items()))
+    return (program.working_dir, tuple((n, id(c), bool(c.is_finished), len(c.arguments), snap(c._result) if c.is_finished else None) for n, c in program.commands.items()))
 
 
 def equal(a, b):
@@ -217,7 +217,8 @@ def configs():
     return [
         P.Parameter(), P.StringParameter(), P.NumberParameter(), P.BooleanParameter(), P.PathParameter(must_exist=True), P.PathParameter(must_exist=False),
         P.ResultParameter(), P.ResultParameter(P.DataParameter()), P.ResultParameter(P.DataParameter(), is_fuzzy=True), P.ResultParameter(P.DataParameter(), is_fuzzy=False),
-        P.ResultParameter(P.BooleanParameter()),
+        P.ResultParameter(P.BooleanParameter()), P.ResultParameter(P.ListParameter(P.NumberParameter())), P.ResultParameter(P.StringParameter()),
+        P.ListParameter(P.ResultParameter(P.NumberParameter())),
         P.ListParameter(), P.ListParameter(P.NumberParameter()), P.ListParameter(P.StringParameter()), P.ListParameter(P.ResultParameter(P.DataParameter(), is_fuzzy=False)),
         P.ListParameter(P.ResultParameter(P.DataParameter(), is_fuzzy=True)), P.ListParameter(P.ResultParameter()), P.ListParameter(P.ListParameter(P.NumberParameter())),
         P.ListParameter(P.BooleanParameter()),
@@ -234,7 +235,7 @@ def pool(program, d, with_arrays=False):
         "true", "TRUE", "True", "false", "False", "0", "1", "2", "yes", "no", "t",
         "Float", "Integer", "Positive Float", "Positive Integer", "Fuzzy", "float", "Complex",
         os.path.join(d, "in.csv"), os.path.join(d, "missing.csv"), "in.csv", "sub/in.csv", "missing.csv", "./in.csv", "../x.csv", d, "é.csv",
-        "A", "F", "U", "Nope", "a",
+        "A", "F", "U", "Nope", "a", "TupleRes", "NumRes", "TextRes", ["TupleRes", "NumRes"],
         [], [1, 2], [1.5, 2], ["1", "2.5"], ["1", "x"], ["A", "F"], ["A", "A"], ["F"], ["A", "Nope"], [A, F], [A], [U], [[1], [2, 3]], [[1], 2], [[]], [["A"]],
         [True, "false", 0], [None], (1, 2), ("A",), [Argument("x", 5)], [Argument("x", "A")], [Argument("x", [1])], [1, [2, [3]]],
         {}, {"a": "b"}, {"a": 1}, {1: 2}, {"k": None}, {"a": "b", "c": "d"}, {"a": [1]},
@@ -297,6 +298,9 @@ def _world(ctx, wd):
     # an unfinished command with a declared data output
     cls = program.find_command_class("Copy")
     program.add_command(cls, "U", {"InFieldName": "A"})
+    # finished producers of non-array results (what user libraries return): a tuple of numeric texts, a number, a text
+    for nm, val in (("TupleRes", ("1", "2.5", 3)), ("NumRes", 5), ("TextRes", "7")):
+        arr.standin(program, nm, val)
     return program, d
 
 
